@@ -22,7 +22,7 @@ RULE = (
     "exact interior at depth >= 1e-3 L (ValueError); circles/spheres/ellipses/ellipsoids with a zero/negative/NaN axis and "
     "spheropolytopes with a negative radius (ValueError); for every class an aliasing probe: every array argument is bit-identical "
     "after construction and shares no memory with anything reachable from the new object.  All x placements up to 10 L from the "
-    "origin.  non-trivial = invalid input or non-identity order/placement."
+    "origin.  Also: convex polygons with a prescribed (non-unit) normal on either side in every input order; invalid sets in every order.  non-trivial = invalid input or non-identity order/placement."
 )
 ASSUMPTIONS = ["degenerate inputs on the decision boundary (collinear neighbours, touching edges, coplanar extra points) are excluded by the exact classifier"]
 BOUNDS = {"quick": {"polygon": "P2(3) all; simple/crossing P2(4) every 6th, P2(5) every 60th", "convex": "CP2(<=5) every 5th x all orders; S3(4) every 6th, S3(5) every 30th x all orders"}, "thorough": {"polygon": "P2(4) every 2nd, P2(5) every 10th", "convex": "CP2 all; S3(4) all, S3(5) every 5th"}}
